@@ -32,11 +32,10 @@ def make_cfg(auth, priv, kt, engine, idx):
     klen = 16 if auth == "md5" else 20
     if auth == "none":
         return rawdrv.Cfg("v3", user="user%d" % idx, engine=engine)
-    if kt == "password":
-        akm, pkm = b"authkey-%d" % idx, b"privkey-%d" % idx
-    else:
-        akm, pkm = bytes((i * 3 + idx) % 256 for i in range(klen)), bytes((i * 5 + idx + 1) % 256 for i in range(klen))
-    return rawdrv.Cfg("v3", user="user%d" % idx, engine=engine, auth=auth, akt=kt, akm=akm, priv=priv, pkt=kt, pkm=pkm if priv != "none" else b"")
+    akt, pkt = kt.split("+") if "+" in kt else (kt, kt)      # "password+master": auth key given as password, privacy key as master key
+    akm = b"authkey-%d" % idx if akt == "password" else bytes((i * 3 + idx) % 256 for i in range(klen))
+    pkm = b"privkey-%d" % idx if pkt == "password" else bytes((i * 5 + idx + 1) % 256 for i in range(klen))
+    return rawdrv.Cfg("v3", user="user%d" % idx, engine=engine, auth=auth, akt=akt, akm=akm, priv=priv, pkt=pkt, pkm=pkm if priv != "none" else b"")
 
 
 def make_responder(agent_state, cfgref, plan):
@@ -154,7 +153,7 @@ def run(tier):
     thorough = tier == "thorough"
     rng = random.Random(SEED)
     chk.rule = ("scenarios = client call sequence (enter / get / get_many / refresh) x agent plan (every reply answered with a changing clock, one reply lost at "
-                "each position, identity change at each position) x {no auth, MD5, SHA-1} x {none, DES, AES} x key type x engine id {given, discovered; 5/17/32 octets} "
+                "each position, identity change at each position) x {no auth, MD5, SHA-1} x {none, DES, AES} x key type (incl. auth and privacy keys of different types) x engine id {given, discovered; 5/17/32 octets} "
                 "x {sync, async}; distinct = scenario; non-trivial = at least two requests reach the agent")
     for given in (True, False):
         res = mc_usm(given, 6 if not thorough else 8)
@@ -162,6 +161,9 @@ def run(tier):
         tlc.require_coverage(res, ["Send", "Accept", "Lost", "SetKeys", "AgentChanges"] if not given else ["Send", "Accept", "Lost", "AgentChanges"], "Usm.tla")
         chk.add_tlc(res, "Usm.tla EngineGiven=%s" % given)
     secs = [("none", "none", "password")] + [(a, p, k) for a in ("md5", "sha1") for p in ("none", "des", "aes") for k in ("password", "master", "localized")]
+    # auth and privacy keys given in different forms (each is expanded according to its own key type)
+    secs += [("md5", "aes", "password+master"), ("sha1", "des", "master+password"), ("md5", "des", "password+localized"),
+             ("sha1", "aes", "master+localized"), ("md5", "aes", "localized+password"), ("sha1", "des", "localized+master")]
     rec = trace.Recorder("c13")
     runs = []
     scen = []
